@@ -359,7 +359,7 @@ def _cube_root_of_unity():
 
 
 BETA = _cube_root_of_unity()
-REP_CLASSES = {'z=1': 0.1, 'z=-1': 0.4, 'z=small': 0.5, 'z=1+bu': 0.6, 'z=lambda': 0.9}
+REP_CLASSES = {'z=1': 0.1, 'z=-1': 0.4, 'z=small': 0.5, 'z=1+bu': 0.6, 'z=mont1': 0.65, 'z=lambda': 0.9}
 
 
 def rep(rng, K, P, force=None):
@@ -386,6 +386,11 @@ def rep(rng, K, P, force=None):
     if c < 0.63 and K is K2:
         # "almost one": real part 1 (or 0), imaginary part non-zero — looks normalised to a careless test
         return 'z=1+bu', jac(K, P, (rng.choice([1, 1, 0]), rng.choice([1, q - 1, rng.randrange(1, q)])))
+    if c < 0.70:
+        # z whose *stored Montgomery form* is 1 or 2 (the value 2^-256 resp. 2^-255 mod q): what a test on the raw limbs
+        # instead of the value mistakes for "normalised"
+        v = pow(2, -256, q) * rng.choice([1, 1, 2]) % q
+        return 'z=mont1', jac(K, P, v if K is K1 else (v, 0))
     return 'z=lambda', jac(K, P, nonzero(rng, K))
 
 
@@ -673,7 +678,6 @@ def gen_pairing(rng, n, entry=None):
     return out
 
 
-def gen_C02(rng, n): return gen_pairing(rng, n)
 def gen_rep_sweep(rng):
     """one pair (P, Q), every class of representative of each operand in turn, one entry point per case
     (round robin): the property is about exactly this"""
@@ -681,10 +685,10 @@ def gen_rep_sweep(rng):
     A = pt_mul(K1, rng.randrange(1, r), P1)
     Q = pt_mul(K2, rng.randrange(1, r), P2)
     k = rng.randrange(3)
-    for cls in ['z=-1', 'z=small', 'z=1+bu', 'z=lambda']:
+    for cls in ['z=-1', 'z=small', 'z=1+bu', 'z=mont1', 'z=lambda']:
         e = ['pairing', 'fast', 'prep'][k % 3]; k += 1
         out.append((f'pair.{e}:sweep:Q:{cls}', f'pair.{e} {rep(rng, K1, A, "z=1")[1]} {rep(rng, K2, Q, cls)[1]}'))
-    for cls in ['z=-1', 'z=small', 'z=lambda']:
+    for cls in ['z=-1', 'z=small', 'z=mont1', 'z=lambda']:
         e = ['pairing', 'fast', 'prep'][k % 3]; k += 1
         out.append((f'pair.{e}:sweep:P:{cls}', f'pair.{e} {rep(rng, K1, A, cls)[1]} {rep(rng, K2, Q, "z=1")[1]}'))
     # the generator itself and its negative (what a cache or a special case would key on), raw and rescaled
@@ -694,6 +698,11 @@ def gen_rep_sweep(rng):
     for e in ['fast', 'prep']:
         out.append((f'pair.{e}:sweep:Q:z=1+bu', f'pair.{e} {rep(rng, K1, A, "z=lambda")[1]} {rep(rng, K2, Q, "z=1+bu")[1]}'))
     return out
+
+
+def gen_C02(rng, n):
+    # random operands and representatives, plus one sweep over every class of representative of each operand
+    return gen_pairing(rng, n) + gen_rep_sweep(rng)
 
 
 def gen_C03(rng, n):
